@@ -812,11 +812,52 @@ def codes_rules(ctx):
         ctx.check(rows == {'0': ['Continuous'], '1': ['Integer'], '2': ['Binary']}, R + '/var-type/mapping', 'T-TABLE', b.name, 'variable type codes map to %s' % rows, b.site(), table=str(rows))
         rest = b.reach([0], stop={t for t, f, c in tab.values()})
         ctx.check(any(st['rv']['k'] == 'agg' and st['rv']['adt'].endswith('ParseErrorReason::InvalidVarType') for bi, st in b.stmts() if bi in rest) and not (rest & b.strict_ok_exits()), R + '/var-type/unknown-is-error', 'T-TABLE', b.name, 'unknown variable type is not InvalidVarType', b.site())
-    sb = ctx.free_fn(R + '/convert-sense/anchor', 'qplib::convert::convert_sense')
-    if sb is not None:
-        rows = enum_rows(ctx, sb, 'qplib::parser::ObjSense', lambda reg: sorted({re.search(r'Sense::(\w+)', o['v']).group(1) for b2, st in sb.stmts() if b2 in reg for o in st['rv'].get('ops', []) if o['k'] == 'const' and 'Sense::' in o['v']}
-                                                                                   | {st['rv']['adt'].split('::')[-1] for b2, st in sb.stmts() if b2 in reg and st['rv']['k'] == 'agg' and 'instance::Sense::' in st['rv']['adt']}))
-        ctx.check(rows == {'Minimize': ['Minimize'], 'Maximize': ['Maximize']}, R + '/convert-sense/mapping', 'T-BRANCHFX', sb.name, 'ObjSense maps to %s' % rows, sb.site())
+    # objective sense: the value that reaches Instance.sense, per ObjSense variant.  Anchored on `convert` and the field, not on a helper:
+    # the mapping may sit in a helper (`convert_sense(qplib.sense)`) or in `convert` itself (`instance.set_sense(match qplib.sense {..})`).
+    conv = ctx.free_fn(R + '/convert-sense/anchor', 'qplib::convert::convert')
+    if conv is not None:
+        sinks = sense_sinks(ctx, conv)
+        if not sinks:
+            ctx.lost(R + '/convert-sense/mapping', 'no value reaches v1::Instance.sense in qplib::convert::convert (SENSE_SINK_IDIOMS)')
+        else:
+            def senses_in(body):
+                return lambda reg: sorted({re.search(r'Sense::(\w+)', o['v']).group(1) for b2, st in body.stmts() if b2 in reg for o in st['rv'].get('ops', []) if o['k'] == 'const' and re.search(r'instance::Sense::(\w+)', o['v'])}
+                                          | {st['rv']['adt'].split('::')[-1] for b2, st in body.stmts() if b2 in reg and st['rv']['k'] == 'agg' and 'instance::Sense::' in st['rv']['adt']})
+            rows = {}; where = conv
+            for how, op in sinks:
+                helpers = [ctx.F.bodies[c.path] for c in origin_calls(conv, op) if c.path in ctx.F.bodies and c.path.startswith('qplib::') and ctx.F.bodies[c.path].kind == 'fn']
+                bodies = helpers or [conv]
+                for hb in bodies:
+                    ctx.fn(hb); where = hb
+                    r = enum_rows(ctx, hb, 'qplib::parser::ObjSense', senses_in(hb))
+                    for k, v in r.items(): rows[k] = sorted(set(rows.get(k, [])) | set(v))
+            ctx.check(rows == {'Minimize': ['Minimize'], 'Maximize': ['Maximize']}, R + '/convert-sense/mapping', 'T-BRANCHFX', where.name, 'ObjSense maps to %s' % rows, where.site(),
+                      sinks=sorted({h for h, o in sinks}))
+
+
+# how a value may be put into Instance.sense (sense_sinks); one entry per idiom
+SENSE_SINK_IDIOMS = {
+    'literal':  '`v1::Instance { sense: X, .. }` (a field taken over from `..Default::default()` / `..other` is not a sink)',
+    'assign':   '`instance.sense = X`',
+    'setter':   '`instance.set_sense(X)` (prost setter: stores `X as i32`)',
+}
+
+
+def sense_sinks(ctx, conv):
+    out = []
+    for bi, st in find_aggregates(conv, 'v1::Instance'):
+        op = agg_field_operand(st, 'sense')
+        if op is None or op['k'] not in ('copy', 'move'):
+            if op is not None: out.append(('literal', op))
+            continue
+        # struct update syntax: the operand is the same field of another Instance value
+        if fields_of_place(op['pl'])[-1:] == [('v1::Instance', 'sense')]: continue
+        out.append(('literal', op))
+    for bi, st in conv.stmts():
+        if st['dst']['p'] and fields_of_place(st['dst'])[-1:] == [('v1::Instance', 'sense')] and st['rv'].get('ops'): out.append(('assign', st['rv']['ops'][0]))
+    for c in conv.calls:
+        if c.item == 'set_sense' and 'Instance' in c.name and len(c.args) == 2: out.append(('setter', c.args[1]))
+    return out
 
 
 # =============================================================================== C19.sections
@@ -833,24 +874,47 @@ KIND_TEST_IDIOMS = {
 }
 
 
+def place_type(ctx, b, pl):
+    """type of a place: the local's type taken through derefs and struct fields (field types from the ADT table); None if not known"""
+    ty = b.locals[pl['l']].strip()
+    for p in pl['p']:
+        if p == '*':
+            ty = re.sub(r"^&('\w+ )?(mut )?", '', ty).strip()
+        elif isinstance(p, dict) and 'f' in p:
+            ty = re.sub(r"^&('\w+ )?(mut )?", '', ty).strip()
+            adt = ctx.F.adts.get(ty) or ctx.F.adts.get(re.sub(r'<.*>$', '', ty))
+            if adt is None or len(adt.get('variants', [])) != 1: return None
+            fs = [f for f in adt['variants'][0]['fields'] if f['name'] == p['f']]
+            if not fs: return None
+            ty = fs[0]['ty'].strip()
+        elif isinstance(p, dict) and 'dc' in p: continue
+        else: return None
+    return ty
+
+
 def reach_under(ctx, b, ty, variant):
     """blocks reachable from the entry when every test on an enum local of type `ty` is decided as if its value were `variant`
     (dict with 'discr' and 'name').  Bools are folded flow-insensitively: a bool local all of whose reachable definitions give the same
     truth value under the assumption is that value everywhere (KIND_TEST_IDIOMS)."""
     def is_ty(l): return b.locals[l].replace('&', '').strip().split('::')[-1] == ty
 
+    def is_ty_place(pl):
+        """a local of the enum type (behind references), or a field of that type: `match qplib.sense`, `self.kind == K::V`"""
+        if all(p == '*' for p in pl['p']): return is_ty(pl['l'])
+        t = place_type(ctx, b, pl)
+        return t is not None and t.replace('&', '').strip().split('::')[-1] == ty
+
     def kind_local(a):
-        """is the operand (a reference to / a copy of) a local of the enum type itself?"""
-        l = a['pl']['l']
-        if [p for p in a['pl']['p'] if p != '*']: return False
+        """is the operand (a reference to / a copy of) a value of the enum type itself?"""
+        pl = a['pl']
         for _ in range(6):
-            if is_ty(l): return True
-            ds = [d for d in b.defs_of(l)]
+            if is_ty_place(pl): return True
+            if [p for p in pl['p'] if p != '*']: return False
+            ds = [d for d in b.defs_of(pl['l'])]
             if len(ds) != 1 or ds[0][0] != 'stmt' or ds[0][2]['dst']['p']: return False
             rv = ds[0][2]['rv']
             pl = rv['pl'] if rv['k'] == 'ref' else (rv['ops'][0]['pl'] if rv['k'] == 'use' and rv['ops'][0]['k'] in ('copy', 'move') else None)
-            if pl is None or [p for p in pl['p'] if p != '*']: return False
-            l = pl['l']
+            if pl is None: return False
         return False
 
     def enum_eq(c):
@@ -879,7 +943,7 @@ def reach_under(ctx, b, ty, variant):
                 if dl in known: succs = [m.get(1 if known[dl] else 0, t['else'])]
                 else:
                     for k2, b2, d in b.defs_of(dl):
-                        if k2 == 'stmt' and d['rv']['k'] == 'discr' and all(p == '*' for p in d['rv']['pl']['p']) and is_ty(d['rv']['pl']['l']):
+                        if k2 == 'stmt' and d['rv']['k'] == 'discr' and is_ty_place(d['rv']['pl']):
                             succs = [m.get(variant['discr'], t['else'])]
             for s_ in succs:
                 if not b.blocks[s_]['cleanup']: work.append(s_)
@@ -1349,7 +1413,7 @@ def sign_rules(ctx):
        lower: -f(x) + c_l <= 0  : constant +c_l, both coefficient lists * -1, id m + i
     and the constraint built there is `<= 0` and reaches the returned list."""
     R = 'C19.convert.sign'
-    cc0 = ctx.free_fn(R + '/anchor', 'qplib::convert::convert_constraints')
+    cc0 = helper_or_caller(ctx, R + '/anchor', 'qplib::convert::convert_constraints')
     if cc0 is None: return
     cc = local_form(ctx, cc0)
     LS = local_slicer(ctx) if cc is not cc0 else ctx.S
@@ -1566,6 +1630,18 @@ def wrap_rules(ctx):
               'the linear part (with the constant) is not attached to the quadratic function: %s' % ('; '.join(probs) or 'no Function::Quadratic built'), b.site())
 
 
+def helper_or_caller(ctx, rule, suffix, caller_suffix='qplib::convert::convert'):
+    """the body a clause is decided on: the single-use helper `suffix` if it exists, else its caller (the helper was folded into it).  The
+    rules of the clause are dataflow conditions on whatever body holds the code, so they are simply decided there; if the code is not there
+    either they fail (fail closed).  Only when neither body exists is the anchor lost."""
+    b = ctx.F.free_fn(suffix)
+    if b is None: b = ctx.F.free_fn(caller_suffix)
+    if b is None:
+        ctx.lost(rule, '%s (nor its caller %s)' % (suffix, caller_suffix)); return None
+    ctx.functions.add(b.name)
+    return b
+
+
 def convert_rules(ctx):
     R = 'C19.convert'
     b = ctx.free_fn(R + '/anchor', 'qplib::convert::convert')
@@ -1575,7 +1651,7 @@ def convert_rules(ctx):
     half_rules(ctx)
     sign_rules(ctx)
     # objective: default b0 over all variables, overridden by non-defaults; constant
-    ob = ctx.free_fn(R + '.b0/anchor', 'qplib::convert::convert_objective')
+    ob = helper_or_caller(ctx, R + '.b0/anchor', 'qplib::convert::convert_objective')
     if ob is not None:
         s = ctx.S.backslice(ob, [0])
         for f in ('q0_non_zeroes', 'b0_non_defaults', 'default_b0', 'num_vars', 'obj_constant'):
@@ -1607,7 +1683,7 @@ def convert_rules(ctx):
         ctx.check(okov, R + '.b0/non-defaults-override', 'T-LOOPMUST', ob.name, 'non-default b0 entries do not override the default for every listed index: %s' % why, ob.site())
     wrap_rules(ctx)
     # variables
-    dv = ctx.free_fn(R + '.vars/anchor', 'qplib::convert::convert_dvars')
+    dv = helper_or_caller(ctx, R + '.vars/anchor', 'qplib::convert::convert_dvars')
     if dv is not None:
         def kinds_in(reg):
             ks = {re.search(r'Kind::(\w+)', o['v']).group(1) for b3, st in dv.stmts() if b3 in reg for o in st['rv'].get('ops', []) if o['k'] == 'const' and re.search(r'Kind::(\w+)', o['v'])}
@@ -1615,22 +1691,31 @@ def convert_rules(ctx):
             return sorted(ks)
         rows = enum_rows(ctx, dv, 'qplib::parser::VarType', kinds_in)
         ctx.check(rows == {'Continuous': ['Continuous'], 'Integer': ['Integer'], 'Binary': ['Binary']}, R + '.vars/kind-mapping', 'T-BRANCHFX', dv.name, 'variable types map to %s' % rows, dv.site())
+        # declared variables keep their bounds: EVERY Bound built for a variable -- whatever its kind -- takes lower / upper unchanged from
+        # lower_bounds / upper_bounds of the same row (LIST_SOURCE_IDIOMS)
         aggs = find_aggregates(dv, 'v1::Bound')
-        okb = False; srcs = {}
         LISTS = ('var_types', 'lower_bounds', 'upper_bounds')
+        probs = []; wrong = []; unknown = []
         for bi, st in aggs:
             d = dict(zip(st['rv']['fields'], st['rv']['ops']))
-            el, eu = T.expr(dv, d['lower'], depth=10), T.expr(dv, d['upper'], depth=10)
-            okb = el != eu and el[0] != 'const' and eu[0] != 'const'
-            srcs = {'lower': source_list(ctx, dv, d['lower'], LISTS), 'upper': source_list(ctx, dv, d['upper'], LISTS)}
-        ctx.check(okb, R + '.vars/bound', 'T-CARRY', dv.name, 'Bound{lower, upper} is not built from two different list elements', dv.site())
-        # which list feeds which part (LIST_SOURCE_IDIOMS); formerly "zip order is (var_types, lower_bounds, upper_bounds)"
-        if aggs and None not in srcs.values():
-            ctx.check(srcs == {'lower': 'lower_bounds', 'upper': 'upper_bounds'}, R + '.vars/lists', 'T-CARRY', dv.name, 'Bound{lower, upper} is filled from %s' % srcs, dv.site())
+            for part, want_list in (('lower', 'lower_bounds'), ('upper', 'upper_bounds')):
+                e = T.expr(dv, d[part], depth=12)
+                if e[0] == 'const': probs.append('%s: Bound.%s is the constant %s' % (dv.site(bi), part, e[1][:20])); continue
+                if any(x[0] in ('bin', 'un') or (x[0] == 'call' and x[1] != 'next' and not _ELEMENT_OF.search(T.strip_generics_tail(x[2])) and not T.TRANSPARENT.search(T.strip_generics_tail(x[2])) and not _ITER_IDENTITY.search(T.strip_generics_tail(x[2])) and x[1] not in ('zip', 'enumerate', 'map'))
+                       for x in _spine(e)):
+                    probs.append('%s: Bound.%s is computed, not taken over' % (dv.site(bi), part)); continue
+                src = source_list(ctx, dv, d[part], LISTS)
+                if src is None: unknown.append('%s.%s' % (dv.site(bi), part))
+                elif src != want_list: wrong.append('%s: Bound.%s comes from %s' % (dv.site(bi), part, src))
+            if T.expr(dv, d['lower'], depth=12) == T.expr(dv, d['upper'], depth=12): probs.append('%s: Bound.lower and Bound.upper are the same value' % dv.site(bi))
+        ctx.check(bool(aggs) and not probs, R + '.vars/bound', 'T-CARRY', dv.name, 'Bound{lower, upper} is not the pair of bounds read for the variable on every path: %s' % ('; '.join(probs) or 'no Bound is built'), dv.site())
+        # which list feeds which part; formerly "zip order is (var_types, lower_bounds, upper_bounds)"
+        if wrong or (aggs and not unknown):
+            ctx.check(not wrong, R + '.vars/lists', 'T-CARRY', dv.name, 'Bound{lower, upper} must be filled from (lower_bounds, upper_bounds): %s' % '; '.join(wrong), dv.site())
         else:
             sl = ctx.S.backslice(dv, [0])
             ctx.check(all(sl.has_field(QF, f) for f in LISTS), R + '.vars/lists/depends', 'T-CARRY', dv.name, 'the variables do not depend on var_types, lower_bounds and upper_bounds', dv.site())
-            ctx.undecided(R + '.vars/lists', 'T-CARRY', dv.site(), 'cannot tie Bound.lower / Bound.upper to one list each: %s' % srcs)
+            ctx.undecided(R + '.vars/lists', 'T-CARRY', dv.site(), 'cannot tie Bound.lower / Bound.upper to one list each: %s' % unknown)
         s = ctx.S.backslice(dv, [0])
         ctx.check(s.has_field(QF, 'var_names'), R + '.vars/names', 'T-CARRY', dv.name, 'variable names are not carried', dv.site())
 
@@ -1686,6 +1771,18 @@ def item_tree(ctx, b, operand, depth=16):
     if fs: return ('leaf', fs[-1])
     root = T.access_path(b, operand, transparent=_ITER_IDENTITY)[1]
     return ('leaf', '#%d' % root) if root is not None and 1 <= root <= b.argc else None
+
+
+def _spine(e):
+    """the nodes of an expression along its receiver chain (projections, first arguments): what the value *is*, not what indexes it"""
+    out = []
+    for _ in range(30):
+        out.append(e)
+        if e[0] == 'proj': e = e[1]
+        elif e[0] in ('cast', 'un'): e = e[2]
+        elif e[0] == 'call' and e[3]: e = e[3][0]
+        else: break
+    return out
 
 
 def tree_at(tree, path):
